@@ -172,3 +172,42 @@ def xf_build(name, m, n, fill, hermitian=False):
     else:
         raise ValueError(name)
     return A, lay
+
+
+# ------------------------------------------------------------------ option invariance helpers
+def quiet_call(fn, *a, **k):
+    """call fn with stdout/stderr swallowed (verbose=True paths print); returns (ok, value-or-exception)."""
+    import contextlib
+    import io
+
+    buf = io.StringIO()
+    try:
+        with contextlib.redirect_stdout(buf), contextlib.redirect_stderr(buf):
+            return True, fn(*a, **k)
+    except Exception as e:  # noqa: BLE001
+        return False, e
+
+
+def canon_value(r):
+    """canonical, hashable form of a returned value (quaternion arrays -> bytes of the float view, ...)."""
+    if isinstance(r, np.ndarray):
+        if r.dtype == np.quaternion:
+            return ("q", r.shape, G.from_quat(r).tobytes())
+        if r.dtype == object:
+            return ("o", r.shape, tuple(canon_value(x) for x in r.ravel()))
+        return ("a", r.shape, str(r.dtype), np.ascontiguousarray(r).tobytes())
+    if type(r).__name__ == "SparseQuaternionMatrix":
+        return ("sq", tuple(r.shape), sparse_to_arr(r).tobytes())
+    if isinstance(r, (tuple, list)):
+        return (type(r).__name__, tuple(canon_value(x) for x in r))
+    if isinstance(r, dict):
+        return ("d", tuple(sorted((str(k), canon_value(v)) for k, v in r.items() if "time" not in str(k).lower())))
+    if isinstance(r, (float, np.floating)):
+        return ("f", float(r).hex() if r == r else "nan")
+    if isinstance(r, (complex, np.complexfloating)):
+        return ("c", complex(r).real.hex(), complex(r).imag.hex())
+    if isinstance(r, (int, np.integer, bool, np.bool_, str, type(None))):
+        return ("s", r if not isinstance(r, (np.integer, np.bool_)) else r.item())
+    if type(r).__name__ == "quaternion":
+        return ("qs", r.w.hex(), r.x.hex(), r.y.hex(), r.z.hex())
+    return ("r", repr(r))
